@@ -42,6 +42,13 @@ pub fn main_with(run: fn(&common::Obj) -> serde_json::Value) {
             x => panic!("unknown argument {x}"),
         }
     }
+    // a change that makes the code under test allocate without bound (an iterator that never ends, collected into a Vec)
+    // must end as a crash of this process (allocation failure -> abort -> event st = "crash"), not as memory pressure on
+    // the whole machine: cap the address space at 8 GiB (the largest legitimate scenario needs well under 1 GiB)
+    unsafe {
+        let lim = libc::rlimit { rlim_cur: 8 << 30, rlim_max: 8 << 30 };
+        libc::setrlimit(libc::RLIMIT_AS, &lim);
+    }
     std::panic::set_hook(Box::new(|_| {})); // panics in code under test are data
     let progress = Arc::new(AtomicU64::new(0));
     {
